@@ -66,7 +66,10 @@ Inductive dprim (nw : Z) : (dev -> Prop) -> (dev -> dev) -> Prop :=
 | dp_shutdown : dprim nw (fun x => d_shut x = false /\ d_kind x = KProcessor) (t_shutdown nw)
 | dp_restore : dprim nw (fun x => d_shut x = true /\ d_kind x = KProcessor) (t_restore nw)
 | dp_block b : dprim nw (fun _ => True) (t_block b)
-| dp_budget z : dprim nw (fun _ => True) (t_budget z).
+| dp_budget z : dprim nw (fun _ => True) (t_budget z)
+| dp_down_del z : dprim nw (fun _ => True) (t_down_del z)
+| dp_down_add z : dprim nw (fun x => d_kind x <> KSink) (t_down_add z)
+| dp_up l : dprim nw (fun _ => True) (t_up l).
 
 (** * where the parts are: the counting function behind the census (C02) *)
 Fixpoint cnt (z : Z) (l : list Z) : Z := match l with [] => 0 | y :: l' => (if z =? y then 1 else 0) + cnt z l' end.
@@ -347,7 +350,7 @@ Ltac ko :=
        let x := fresh "x" in
        intro x;
        unfold t_accept_sink, t_accept_proc, t_accept_buffer, t_accept, t_shutdown, t_restore, t_supplied, t_fail_clear, t_stop_use, t_clear_part,
-              t_waiting_res, t_waiting_ds, t_set_cycle, t_add_offset, t_reset_offset, t_block, t_budget, t_reserved, t_batch_more, dev_set_wait, dev_add_value;
+              t_waiting_res, t_waiting_ds, t_set_cycle, t_add_offset, t_reset_offset, t_block, t_budget, t_down_del, t_down_add, t_up, t_reserved, t_batch_more, dev_set_wait, dev_add_value;
        cbv zeta;
        first [ solve [repeat split; reflexivity]
              | (repeat match goal with
@@ -375,7 +378,7 @@ Ltac kn :=
        let x := fresh "x" in
        intro x;
        unfold t_shutdown, t_restore, t_supplied, t_waiting_res, t_waiting_ds, t_set_cycle, t_add_offset, t_reset_offset, t_block, t_budget,
-              t_reserved, dev_set_wait, dev_add_value;
+              t_down_del, t_down_add, t_up, t_reserved, dev_set_wait, dev_add_value;
        cbv zeta;
        first [ solve [repeat split; reflexivity]
              | (repeat match goal with
@@ -389,7 +392,7 @@ Ltac kr :=
   intro x;
   unfold t_accept_sink, t_accept_proc, t_accept_buffer, t_accept, t_shutdown, t_restore, t_supplied, t_buf_pop, t_buf_store, t_map_slot,
          t_finish_proc, t_fail_clear, t_stop_use, t_finish, t_generated, t_clear_out, t_clear_part, t_batch_single, t_batch_full, t_batch_more,
-         t_waiting_res, t_waiting_ds, t_set_cycle, t_add_offset, t_reset_offset, t_block, t_budget, dev_set_wait, dev_add_value;
+         t_waiting_res, t_waiting_ds, t_set_cycle, t_add_offset, t_reset_offset, t_block, t_budget, t_down_del, t_down_add, t_up, dev_set_wait, dev_add_value;
   cbv zeta;
   repeat match goal with
          | |- context[if ?b then _ else _] => destruct b
@@ -957,6 +960,39 @@ Qed.
 Lemma R_maint_finish fuel mid wo w : R w (maint_finish fuel nw mid wo w).
 Proof. unfold maint_finish. eapply R_trans; [apply R_restore|apply R_maint_call]. Qed.
 
+Lemma R_rewire fuel w d ups : R w (rewire fuel nw w d ups).
+Proof.
+  unfold rewire. set (x := getd w d). destruct (existsb (bad_up d w) ups) eqn:BAD; [Rt|].
+  set (w0 := if is_holder (d_kind x) then match d_wait_since x with Some _ => updd w d (dev_set_wait nw true true) | None => w end else w).
+  assert (R0 : R w w0).
+  { unfold w0. destruct (is_holder (d_kind x)); [|Rt]. destruct (d_wait_since x); [|Rt].
+    apply (R_dev w d _ _ (dp_set_wait nw true true)); [kr|kn|ko|exact I]. }
+  eapply R_trans; [exact R0|].
+  assert (AM0 : forall a, amem a (f_devs w0) = amem a (f_devs w)) by (intro a; apply (R_amem w w0 R0)).
+  assert (K0 : forall a, d_kind (getd w0 a) = d_kind (getd w a)) by (intro a; apply (R_kind w w0 R0)).
+  set (w1 := fold_left (fun w' u => updd w' u (t_down_del d)) (d_up x) w0).
+  assert (R1 : R w0 w1).
+  { unfold w1. apply R_fold. intros w' u. apply (R_dev w' u _ _ (dp_down_del nw d)); [kr|kn|ko|exact I]. }
+  eapply R_trans; [exact R1|].
+  set (w2 := updd w1 d (t_up ups)).
+  assert (R2 : R w1 w2) by (apply (R_dev w1 d _ _ (dp_up nw ups)); [kr|kn|ko|exact I]).
+  eapply R_trans; [exact R2|].
+  assert (R02 : R w w2) by (eapply R_trans; [exact R0|eapply R_trans; [exact R1|exact R2]]).
+  (* the new upstreams: none of them is a sink (validated above) *)
+  assert (NS : forall u, In u ups -> d_kind (getd w u) <> KSink).
+  { intros u Hu E. assert (X : existsb (bad_up d w) ups = true) by (apply existsb_exists; exists u; split; [exact Hu|unfold bad_up; rewrite E; apply orb_true_r]). congruence. }
+  assert (G : forall l wb, R w wb -> (forall u, In u l -> d_kind (getd w u) <> KSink) ->
+              R wb (fold_left (fun w' u => if existsb (Z.eqb d) (d_down (getd w' u)) then w' else signal fuel nw false (updd w' u (t_down_add d)) u) l wb)).
+  { induction l as [|u l IH]; intros wb Rb NS'; cbn [fold_left]; [Rt|].
+    assert (NSl : forall u0, In u0 l -> d_kind (getd w u0) <> KSink) by (intros u0 H0; apply NS'; right; exact H0).
+    destruct (existsb (Z.eqb d) (d_down (getd wb u))); [apply IH; assumption|].
+    assert (S1 : R wb (signal fuel nw false (updd wb u (t_down_add d)) u)).
+    { eapply R_trans; [|apply R_signal]. apply (R_dev wb u _ _ (dp_down_add nw d)); [kr|kn|ko|].
+      cbn beta. rewrite (R_kind w wb Rb u). apply NS'. left. reflexivity. }
+    eapply R_trans; [exact S1|]. apply IH; [eapply R_trans; [exact Rb|exact S1]|exact NSl]. }
+  apply G; assumption.
+Qed.
+
 Lemma R_run_uop fuel w o : R w (run_uop fuel nw w o).
 Proof.
   unfold run_uop. destruct (negb (okf w)); [Rt|]. destruct o.
@@ -968,6 +1004,7 @@ Proof.
     match goal with |- context[t_budget ?z] => step_dev w d (t_budget z) (dp_budget nw z); [exact I|] end.
     destruct (_ <? 1); [apply R_sched_pass|Rt].
   - apply (R_dev w d _ _ (dp_add_offset nw z)); [kr|kn|ko|exact I].
+  - apply R_rewire.
   - apply R_rm_quiet, rm_quiet_add. reflexivity.
   - apply R_create_wo.
 Qed.
